@@ -101,6 +101,8 @@ type TB struct {
 	True   *Term
 	False  *Term
 	ufSigs map[string]ufSig
+	noLinear bool
+	VarRange map[int][2]int64 // optional known ranges of 64-bit variables (term id -> [lo,hi])
 }
 
 type ufSig struct {
@@ -109,7 +111,7 @@ type ufSig struct {
 }
 
 func NewTB() *TB {
-	tb := &TB{tab: map[string]*Term{}, ufSigs: map[string]ufSig{}}
+	tb := &TB{tab: map[string]*Term{}, ufSigs: map[string]ufSig{}, VarRange: map[int][2]int64{}}
 	tb.True = tb.mk(&Term{Op: OpConst, S: BoolSort, C: 1})
 	tb.False = tb.mk(&Term{Op: OpConst, S: BoolSort, C: 0})
 	return tb
@@ -288,6 +290,11 @@ func (tb *TB) Eq(a, b *Term) *Term {
 	}
 	if a.Op == OpConst && b.Op == OpConst {
 		return tb.Bool(a.C == b.C)
+	}
+	if a.S.K == KBV && a.S.W == 64 && !tb.noLinear {
+		if r, ok := tb.linCompare(OpEq, a, b); ok {
+			return r
+		}
 	}
 	if a.Op == OpConst {
 		a, b = b, a
@@ -527,6 +534,11 @@ func (tb *TB) Cmp(op Op, a, b *Term) *Term {
 	}
 	if a == b {
 		return tb.Bool(op == OpUle || op == OpSle)
+	}
+	if w == 64 && !tb.noLinear {
+		if r, ok := tb.linCompare(op, a, b); ok {
+			return r
+		}
 	}
 	switch op {
 	case OpUlt:
